@@ -132,6 +132,7 @@ func c02(tier string) []*explore.Scenario {
 	for _, cs := range two {
 		out = append(out, c02One(cs, 64, bound-1))
 	}
+	out = append(out, c16RPCFam("C02", "2streams", true, 1), c16RPCFam("C02", "unary+stream", false, 1))
 	if tier == "thorough" {
 		out = append(out, c02One([]streamCase{{"Bidi", "pingpong", "echo", 1, 0, 0}, {"Bidi", "pingpong", "echo", 1, 0, 0}, {"Bidi", "pingpong", "echo", 1, 0, 0}}, 64, 1))
 		// long streams and many streams under the default schedule and one deviation
